@@ -228,7 +228,7 @@ pub fn run(tier: &str, rec: &Recorder) -> RunOutput {
     let wm = weight_menu();
     let nm = NAME_MENU.len();
     // stage A: name pairs / triples x shapes x kinds (weights: one weighted + unweighted pattern per shape)
-    let mut name_sets: Vec<Vec<usize>> = vec![];
+    let mut name_sets: Vec<Vec<usize>> = vec![vec![]];
     for a in 0..nm {
         name_sets.push(vec![a]);
         for b in 0..nm {
